@@ -246,6 +246,7 @@ def run(tier, seed, replay=None):
     for t_ in range(12 if tier == "quick" else 200):
         d_ = rng.choice([2, 3, 4, 5]); N_ = [rng.choice([1, 2, 3, 4]) for _ in range(d_)]
         cdt = rng.choice([torch.float64, torch.complex128])
+        torch.manual_seed(rng.randrange(1 << 30))
         x_ = torchtt.randn(N_, [1] + [rng.randint(1, 4) for _ in range(d_ - 1)] + [1], dtype=cdt)
         try:
             cl_, R_ = lr_orthogonal(x_.cores, x_.R, False)
